@@ -195,9 +195,11 @@ func init() {
 			})
 			logSet := forward(logs, fwdOpts{noBinOp: true})
 			var okVals []ssa.Value
+			var lookupKeys []ssa.Value
 			for _, b := range fn.Blocks {
 				for _, in := range b.Instrs {
 					if lk, ok := in.(*ssa.Lookup); ok && lk.CommaOk && logSet[lk.X] {
+						lookupKeys = append(lookupKeys, lk.Index)
 						for _, ref := range *lk.Referrers() {
 							if ex, ok := ref.(*ssa.Extract); ok && ex.Index == 1 {
 								okVals = append(okVals, ex)
@@ -214,8 +216,19 @@ func init() {
 					r.bad(key, p.Rel(s.Pos()), what, "transaction.Commit does not consult GetTransactionLogs: a re-run after a failure at the k-th branch stacks duplicate commits on the first k-1 branches")
 					continue
 				}
+				// the membership test must ask for the name the update will be logged under
+				keyAgrees := false
+				if args := s.Common().Args; len(args) >= 2 {
+					for _, lkKey := range lookupKeys {
+						if sameElem(lkKey, args[1]) {
+							keyAgrees = true
+						}
+					}
+				}
 				if path, reach := reachAfter(fn, nil, s, cut, nil); reach {
 					r.bad(key, p.Rel(s.Pos()), what, fmtPath("ref update reachable without passing the not-yet-logged edge", path))
+				} else if !keyAgrees {
+					r.bad(key, p.Rel(s.Pos()), what, "the transaction-log lookup uses a different key than the ref name the update is logged under (the reflog is keyed by the full ref name): the test can never find an already-moved branch")
 				} else {
 					r.ok(key, p.Rel(s.Pos()), what)
 				}
